@@ -233,3 +233,57 @@ Definition client_do (r : option creq) : outcome * list ev :=
         end
   end.
 End Do.
+
+(* ---------- one client object, several calls ----------
+   Client.Connect, Client.Close / SerialClient.Close and Do in sequence on the same object.  What a
+   call leaves behind is the connection field and whether the transport has been closed:
+
+     Connect   conn, err := c.dialContextFunc(ctx, address); if err != nil { return err };
+               c.conn = conn        (the old connection, if any, is neither closed nor kept)
+     Close     if c.conn == nil { return nil }; return c.conn.Close()      (c.conn stays set)
+     Do        does not assign c.conn / c.serialPort on any path, whatever its outcome
+
+   A closed transport is environment behaviour like the rest of the script: SetWriteDeadline on a
+   closed net.Conn fails, Write on a closed port fails ([on_closed]).  Every method takes c.mu at
+   its start and releases it by defer: a call never waits for an earlier one that has returned.
+   (That the lock is released on every path is not visible in this sequential model; it is the
+   regenerated lock-skeleton obligation of C14.)  The serial client has no Connect: its port is
+   given to the constructor. *)
+Record cstate := { st_conn : bool; st_closed : bool }.
+
+Inductive op :=
+| OpConnect (dial_fails : bool)
+| OpClose
+| OpDo (r : option creq) (sc : script).
+
+Inductive opres := RConnect (ok : bool) | RClose | RDo (x : outcome * list ev).
+
+Definition on_closed (k : kind) (sc : script) : script :=
+  match k with
+  | KSerial => {| sc_swd_err := sc_swd_err sc; sc_write_err := true; sc_flush_err := sc_flush_err sc; sc_steps := sc_steps sc |}
+  | _ => {| sc_swd_err := true; sc_write_err := sc_write_err sc; sc_flush_err := sc_flush_err sc; sc_steps := sc_steps sc |}
+  end.
+
+(* cfg0 gives kind, hooks and flusher; its c_connected is not used *)
+Definition cfg_in (cfg0 : config) (s : cstate) : config :=
+  {| c_kind := c_kind cfg0; c_connected := st_conn s; c_hooks := c_hooks cfg0; c_flusher := c_flusher cfg0 |}.
+
+Definition step_op (cfg0 : config) (s : cstate) (o : op) : cstate * opres :=
+  match o with
+  | OpConnect fails =>
+      match c_kind cfg0 with
+      | KSerial => (s, RConnect true)                     (* not a method of SerialClient *)
+      | _ => if fails then (s, RConnect false)
+             else ({| st_conn := true; st_closed := false |}, RConnect true)
+      end
+  | OpClose =>
+      if st_conn s then ({| st_conn := true; st_closed := true |}, RClose) else (s, RClose)
+  | OpDo r sc =>
+      (s, RDo (client_do (cfg_in cfg0 s) (if st_closed s then on_closed (c_kind cfg0) sc else sc) r))
+  end.
+
+Fixpoint run_ops (cfg0 : config) (s : cstate) (ops : list op) : list opres :=
+  match ops with
+  | [] => []
+  | o :: rest => snd (step_op cfg0 s o) :: run_ops cfg0 (fst (step_op cfg0 s o)) rest
+  end.
